@@ -83,7 +83,11 @@ func VerifC15Tab(at, pm0, pm1, pre int) {
 	if pm0 == 0 {
 		slipColnum = 0
 	}
+	// C15-T-colinc (colinc 0: integer divide by zero) is repaired; what remains of
+	// its region is the colnum*colinc target of the form without @ (for colinc 0
+	// slip now writes no spaces, which is right once the cursor has reached colnum)
 	vrt.Carve("C15-T-colinc", (at == 0 && colinc != 1) || (at != 0 && colinc == 0))
+	vrt.Carve("C15-T-colnum-times-colinc", at == 0 && colinc != 1 && !(colinc == 0 && colnum <= col))
 	vrt.Carve("C15-T-boundary-defaults", (at == 0 && colinc == 1 && slipColnum == col) || (at != 0 && pm0 == 0 && colinc != 0))
 	got := zzC15Process(slip.NewScope(), ctrl, args)
 	vrt.Reach("compared")
